@@ -128,6 +128,24 @@ fn bounded_search_over_query_strings_forms_and_json() {
     assert!(JsonBody::<Form>::extract(&head("/", Some("text/plain")), &BufferedBody { bytes: "{}".into() }).is_err(), "wrong content type");
     assert!(JsonBody::<Form>::extract(&head("/", Some("application/json")), &BufferedBody { bytes: "{\"id\":1".into() }).is_err(), "truncated JSON");
     assert!(UrlEncodedBody::<Form>::extract(&head("/", Some("application/x-www-form-urlencoded")), &BufferedBody { bytes: vec![b'n', b'a', b'm', b'e', b'=', 0xFF, 0xFE].into() }).is_err(), "invalid UTF-8 in a form");
+    // the content-type gate, both ways: what the documentation lists is accepted, everything else is the documented error
+    let json_body = BufferedBody { bytes: serde_json::to_vec(&Form { id: 1, name: "n".into(), note: None, flag: true, big: 1 }).unwrap().into() };
+    for ct in ["application/json", "application/json; charset=utf-8", "application/vnd.api+json", "application/problem+json", "APPLICATION/JSON", "application/ld+json;profile=x"] {
+        assert!(JsonBody::<Form>::extract(&head("/", Some(ct)), &json_body).is_ok(), "Content-Type {ct:?} is a JSON media type and must be accepted");
+    }
+    for ct in ["application/x-ndjson", "application/ndjson", "application/jsonl", "application/json-seq", "text/json", "text/plain", "application/xml", "application/jsonp", "json", "application/x-www-form-urlencoded", "multipart/form-data; boundary=x"] {
+        let e = JsonBody::<Form>::extract(&head("/", Some(ct)), &json_body).expect_err(&format!("Content-Type {ct:?} is not a JSON media type: the documented mismatch error is due"));
+        assert!(matches!(e, crate::request::body::errors::ExtractJsonBodyError::ContentTypeMismatch(_)), "Content-Type {ct:?}: {e:?}");
+    }
+    assert!(matches!(JsonBody::<Form>::extract(&head("/", None), &json_body), Err(crate::request::body::errors::ExtractJsonBodyError::MissingContentType(_))));
+    let form_body = BufferedBody { bytes: "id=1&name=n&flag=true&big=1".into() };
+    for ct in ["application/x-www-form-urlencoded", "application/x-www-form-urlencoded; charset=utf-8", "APPLICATION/X-WWW-FORM-URLENCODED"] {
+        assert!(UrlEncodedBody::<Form>::extract(&head("/", Some(ct)), &form_body).is_ok(), "Content-Type {ct:?} must be accepted");
+    }
+    for ct in ["multipart/form-data; boundary=x", "text/plain", "application/json", "text/x-www-form-urlencoded", "application/www-form-urlencoded"] {
+        let e = UrlEncodedBody::<Form>::extract(&head("/", Some(ct)), &form_body).expect_err(&format!("Content-Type {ct:?} is not a urlencoded form"));
+        assert!(matches!(e, crate::request::body::errors::ExtractUrlEncodedBodyError::ContentTypeMismatch(_)), "Content-Type {ct:?}: {e:?}");
+    }
     println!("VERIF-BOUNDED test=bounded_search_over_query_strings_forms_and_json evaluations={n} bound=pseudo-random values (fixed seed) for one 5-field struct (u32, String, Option<String>, bool, i64) sent as a query string, as a urlencoded form and as JSON; strings of 0-4 pieces out of 26; plus 10 malformed inputs");
 }
 }
